@@ -220,6 +220,10 @@ func (c *DefaultCrawler) Run(ctx context.Context, startingPeers []*peer.AddrInfo
 	numSkipped := 0
 	peerAddrs.lk.Lock()
 	for _, ai := range startingPeers {
+		if _, ok := peersSeen[ai.ID]; ok {
+			// listed more than once: query it once only
+			continue
+		}
 		extendAddrs := c.host.Peerstore().Addrs(ai.ID)
 		if len(ai.Addrs) > 0 {
 			extendAddrs = append(extendAddrs, ai.Addrs...)
